@@ -8,6 +8,7 @@
   or the scalar hue + 360°.
 -/
 import PaletteProofs.Real
+import PaletteProofs.Lemmas.HslGuard
 import PaletteModel.Simd
 import Mathlib.Tactic.Linarith
 import Mathlib.Tactic.FieldSimp
@@ -319,10 +320,13 @@ theorem hslOfParts_real (mx mn sep coeff : ℝ) :
        if mx = mn then 0 else (mx - mn) / (if 1 < mx + mn then 2 - (mx + mn) else mx + mn),
        (mx + mn) / 2⟩ := by
   unfold hslOfParts hsvOfParts
+  -- the guard `divisor == 0` (c404fc5): at ℝ the guarded quotient is the quotient (`d / 0 = 0`);
+  -- the code's denominator `(1 − max) + (1 − min)` is `2 − (max + min)` at ℝ
+  simp only [RealScalar.hslSat_eq]
+  simp only [eqv_iff, RealScalar.invertedSum_eq]
   by_cases h : mx = mn
-  · rw [if_neg (by rw [eqv_iff]; exact not_not.mpr h), if_neg (by rw [eqv_iff]; exact not_not.mpr h), if_pos h]; norm_num
-  · -- the code's denominator `(1 − max) + (1 − min)` is `2 − (max + min)` at ℝ
-    rw [if_pos (by rw [eqv_iff]; exact h), if_pos (by rw [eqv_iff]; exact h), if_neg h, RealScalar.invertedSum_eq]; norm_num
+  · simp only [h, not_true_eq_false, if_false, if_true]; norm_num
+  · simp only [h, not_false_eq_true, if_true, if_false]; norm_num
     split_ifs <;> rfl
 
 noncomputable def hslMaskCore (R G B : ℝ) : V3 ℝ :=
@@ -332,9 +336,23 @@ noncomputable def hslMaskCore (R G B : ℝ) : V3 ℝ :=
      (if 1 < max (max R G) B + min (min R G) B then 2 - (max (max R G) B + min (min R G) B) else max (max R G) B + min (min R G) B),
    0.5 * (max (max R G) B + min (min R G) B)⟩
 
+/-- the mask `min.eq(&max) | divisor.eq(&T::zero())` of the repaired mask-generic branch (c404fc5), read at ℝ: the second
+    disjunct only ever replaces `d / 0`, which is `0` at ℝ -/
+theorem hslSatMaskV_eq (a b d x : ℝ) :
+    VScalar.select (Mask.or (VScalar.eq a b : Bool) (VScalar.eq x 0.0)) (0.0 : ℝ) (d / x) = if a = b then 0.0 else d / x := by
+  rw [vsel, mor, veq, veq]
+  have e0 : (0.0 : ℝ) = 0 := by norm_num
+  by_cases h : a = b
+  · simp only [h, decide_true, Bool.true_or, if_true]
+  · simp only [h, decide_false, Bool.false_or, decide_eq_true_eq, if_false]
+    split
+    · next hx => rw [hx, e0, div_zero]
+    · rfl
+
 theorem rgbToHslMask_core (c : V3 ℝ) : rgbToHslMask c = hslMaskCore (max c.c0 0.0) (max c.c1 0.0) (max c.c2 0.0) := by
   unfold rgbToHslMask hslMaskCore lazySelect
-  simp only [vsel, veq, vgt, vmax, vmin, decide_eq_true_eq, RealScalar.invertedSum_eq]
+  simp only [hslSatMaskV_eq]
+  simp only [vsel, vgt, vmax, vmin, decide_eq_true_eq, RealScalar.invertedSum_eq]
   norm_num
 
 /-- **Rgb → Hsl: the branch-free algorithm agrees with the scalar one for every rgb**, up to the unsigned normal form of the hue -/
